@@ -15,8 +15,8 @@ MAP = {
          ("ZipLongest", ["zip_longest_trace", "zip_longest_yields"]),
          ("Merge", ["merge_spec", "merge_yields"]), ("MergeSorted", ["spec_merge_perm", "spec_merge_sorted"])],
  "C02": [("MinMax", ["min_max_spec", "spec_min_first_minimal", "spec_max_first_maximal", "spec_min_max_type_error", "spec_min_max_value_error"]),
-         ("AllAny", ["all_spec", "any_spec"]), ("Folds", ["sum_spec", "list_spec", "tuple_spec", "set_spec", "dict_spec_partial", "dict_spec_refuted", "reduce_spec"]),
-         ("Sorted", ["sorted_spec", "spec_sorted_perm", "spec_sorted_sorted", "spec_sorted_stable"]),
+         ("AllAny", ["all_spec", "any_spec"]), ("Folds", ["sum_spec", "list_spec", "tuple_spec", "set_spec", "dict_spec", "reduce_spec"]),
+         ("Sorted", ["sorted_spec", "spec_sorted_perm", "spec_sorted_sorted", "spec_sorted_stable", "sorted_type_error_exact", "sorted_outcome_cases"]),
          ("Largest", ["nlargest_spec", "nsmallest_spec"])],
  "C04": [("ReleaseAll", ["tool_releases", "tool_releases_closed", "tool_releases_partial", "tool_releases_refuted"]),
          ("Release", ["scoped_releases", "close_all_releases"]), ("ReleaseChain", ["chain_releases", "chain_close_releases"]),
@@ -38,7 +38,8 @@ MAP = {
                             "cls_normal_stop", "cls_normal_yield", "cls_normal_raise", "genexit_propagates", "genexit_uses_aclose", "genexit_close_fails"])],
  "C09": [("Tee", ["tee_inv", "tee_prefix", "tee_complete", "tee_mutex", "tee_source_closed", "tee_needs_guard_refuted", "tee_no_deadlock"])],
  "C11": [("LruConc", ["size_bounded_conc", "keys_unique_conc", "values_genuine", "stats_conc", "misses_le_invocations", "stats_conc_with_clear_refuted",
-                      "failed_or_cancelled_stores_nothing", "conc_quiesces_to_seq", "conc_quiesces_to_seq_reachable"])],
+                      "failed_or_cancelled_stores_nothing", "conc_quiesces_to_seq", "conc_quiesces_to_seq_reachable"]),
+         ("LruLink", ["akey_eq", "seq_do_is_l_do", "quiescent_conc_is_sequential_lru", "quiescent_conc_is_functools", "quiescent_conc_then_sequential_is_functools"])],
  "C15": [("Decorator", ["call_projection", "call_projection_general", "cancelled_in_enter", "cancelled_in_body", "fresh_generators", "one_generator_per_call",
                        "projection_independent", "actions_commute", "sequential_calls", "sequential_calls_generator_based"])],
  "C12": [("CachedProperty", ["values_genuine", "lock_discipline", "failed_or_cancelled_caches_nothing", "computes_once_per_deletion", "computes_once",
@@ -66,7 +67,7 @@ CALC = ("Require Import V.Kernel.Monad V.Kernel.Fn V.Model.Builtins V.Model.Iter
         "Require Import V.Std.Filter V.Std.Builtins V.Std.Itertools1 V.Std.Multi V.Std.Heapq.\n")
 MODELS = {"C01": CALC, "C02": CALC, "C04": CALC, "C05": CALC, "C06": CALC, "C18": CALC,
           "C07": "Require Import V.Model.Borrow.\n", "C08": "Require Import V.Model.Borrow.\n",
-          "C09": "Require Import V.Model.Tee.\n", "C10": "Require Import V.Model.Lru.\n", "C11": "Require Import V.Model.LruConc.\n",
+          "C09": "Require Import V.Model.Tee.\n", "C10": "Require Import V.Model.Lru.\n", "C11": "Require Import V.Model.LruConc V.Model.Lru V.Proofs.Lru V.Proofs.LruConc.\n",
           "C12": "Require Import V.Model.CachedProperty.\n", "C13": "Require Import V.Model.ContextManager.\n",
           "C14": "Require Import V.Model.ExitStack.\n", "C15": "Require Import V.Model.Decorator.\n", "C16": "Require Import V.Model.GroupBy.\n", "C19": "Require Import V.Model.Adapters.\n",
           "C20": "Require Import V.Kernel.Monad V.Model.Builtins V.Model.Itertools V.Model.Heapq V.Model.Tee V.Proofs.Tee.\n"}
